@@ -40,16 +40,10 @@ import (
 // "C07:converter-dead-after-panic:<pipeline>:<panic site>" with its consequences (FLV / HLS output stopped)
 // in the witness; "flv-output-stops" / "hls-output-stops" are used only when no dead converter explains them.
 //
-// EXTENSION POINT (service level, not built here): hostile interleaved frames on a real RECORD session
-// (unknown channels, RTP shorter than 12 bytes), hostile SDP in ANNOUNCE, pulled cameras: c07ServiceLevel.
+// Service level (c07_service.go): hostile interleaved frames on a real RECORD session (oversized RTP, RTP shorter than
+// its header, zero-length frames, RTCP garbage, unknown channels) with real players attached and a bystander stream.
 
 func init() { kit.Register("C07", runC07) }
-
-// c07ServiceLevel is the extension point for the service-level part of the property (RECORD session with
-// hostile interleaved frames, hostile ANNOUNCE SDPs, pulled cameras). Deliberately empty.
-func c07ServiceLevel(c *kit.Ctx) {
-	c.Note("service_level", "not built in this check: RECORD-session / ANNOUNCE-SDP / pull-client faults are an extension point")
-}
 
 type c07Control struct {
 	flvIDs  map[uint64]bool
